@@ -171,6 +171,27 @@ def _impl(tier, seed, search):
                     except Exception as e: got = ('raised', type(e).__name__)
                     if got != want:
                         L.fail(f'scalar:{c}:{opn}', f'{c} {opn} scalar is documented to return {want[1]} but gave {got}', inp, observed=got, required=want)
+        # operands that are not library objects: integer powers only; a point may only be transformed by a *unit* dual quaternion
+        for c in POSE + QUAT:
+            for m in (1, 2):
+                for ex in (0.5, -0.5, 2.5, '2', np.array(2.7), 1.0):
+                    inp = dict(cls=c, op='**', exponent=repr(ex), len=m)
+                    L.count('pow-nonint', key=(c, repr(ex), m)); L.sample('pow-nonint', inp)
+                    try: got = classify(mk(c, m) ** ex)
+                    except Exception: continue
+                    L.fail(f'must-raise:{c}**non-integer', f'{c} ** {ex!r} must raise (only integer exponents are documented) but returned {got}', inp, observed=got, required='exception')
+        for vec in ([1.0, 2.0, 3.0], (1.0, 2.0, 3.0), np.array([1.0, 2.0, 3.0]), np.array([[1.0], [2.0], [3.0]])):
+            inp = dict(cls='DualQuaternion', op='*', right=type(vec).__name__ + str(np.shape(vec)))
+            L.count('dq-point', key=inp['right']); L.sample('dq-point', inp)
+            try:
+                got = classify(mk('DualQuaternion') * vec)
+                L.fail('must-raise:DualQuaternion*vector', f'DualQuaternion * 3-vector must raise (only a unit dual quaternion transforms a point) but returned {got}', inp, observed=got, required='exception')
+            except Exception: pass
+            try:
+                got = classify(mk('UnitDualQuaternion') * vec)
+                if got != ('kind', 'ndarray'): L.fail('documented:UnitDualQuaternion*vector', f'UnitDualQuaternion * 3-vector is documented to return a point but returned {got}', inp, observed=got)
+            except Exception as e:
+                L.fail('documented:UnitDualQuaternion*vector', f'UnitDualQuaternion * 3-vector raised {type(e).__name__}', inp, observed=type(e).__name__)
         # == and != within one class: booleans (a list for sequences), never raising
         for c in POSE + QUAT + ['Twist2', 'Twist3', 'Plucker']:
             for m in (1, 2):
